@@ -147,9 +147,17 @@ def tuple_key_cases(run, rng, n):
                 want[key] = {"sum": np.sum, "nansum": np.nansum, "max": np.max, "min": np.min, "nanmean": np.nanmean,
                              "count": lambda a: np.sum(~np.isnan(a))}[func](mem)
         chunks = G.random_composition(rng, m, 3)
-        for mode in ("eager", "dask", "dask-by"):
+        for mode in ("eager", "dask", "dask-by", "dask-by-mixed"):
+            if mode == "dask-by-mixed" and k < 2:
+                continue
             arr = vals if mode == "eager" else da.from_array(vals, chunks=(chunks,))
             bb = [da.from_array(b, chunks=(chunks,)) for b in bys] if mode == "dask-by" else bys
+            if mode == "dask-by-mixed":
+                # some groupers held in dask arrays, the others in memory
+                pick = rng.randrange(k)
+                bb = [da.from_array(b, chunks=(chunks,)) if (i == pick) == (rng.random() < 0.5 or True) else b for i, b in enumerate(bys)]
+                if rng.random() < 0.5:
+                    bb = [b if isinstance(x, da.Array) else da.from_array(b, chunks=(chunks,)) for x, b in zip(bb, bys)] if k > 2 else bb
             try:
                 with warnings.catch_warnings(), dask.config.set(scheduler="sync"):
                     warnings.simplefilter("ignore")
